@@ -20,7 +20,8 @@ RULE = (
     "blocks). Legs: alt (alternative_genomic_sequence / parent_with_alternative_sequence of every variant and "
     "collection), lift (lift_over_location through the single-variant and the collection API, location given bare, on "
     "the reference parent, chunk-relative, and to sequence-less variants), iv (incorporate_variants on "
-    "FeatureInterval, TranscriptInterval +- CDS, CDSInterval), agg (GeneInterval, FeatureIntervalCollection, "
+    "FeatureInterval, TranscriptInterval +- CDS, CDSInterval), ivx (the same on intervals CUT by their own chunk with "
+    "variants defined on a larger chunk / the chromosome), agg (GeneInterval, FeatureIntervalCollection, "
     "AnnotationCollection.incorporate_variants, alternative_haplotype_mapping), vcf (convert_vcf_records_to_model on "
     "all record lists). Non-trivial = a length-changing variant inside a block or >= 2 variants."
 )
@@ -46,6 +47,11 @@ ASSUMPTIONS = [
     "a haplotype of ZERO bases (every base of the chromosome/chunk deleted) cannot be carried by a Parent/Sequence: "
     "documented refusals of lift-over / incorporation / alternative parent on it are accepted (the alternative "
     "sequence text itself is still compared)",
+    "cross-chunk incorporation (leg ivx): an interval on a chunk that cuts it sees only its bases on that chunk; with "
+    "variants defined on a strictly larger chunk of the same chromosome the result must be the edit model applied to "
+    "those bases (only edit sets with at most one length-changing variant, so the registered sequential-shift finding "
+    "cannot interfere); with variants defined on the whole-chromosome parent the library refuses with "
+    "NoSuchAncestorException (from_chunk_relative_location) - accepted as a documented refusal, counted",
     "CDS start frames 1,2 are decided only when no variant touches the skipped 5' bases (otherwise the start frame has "
     "no model meaning) and the 5' exon is at least as long as the offset",
 ]
@@ -63,6 +69,8 @@ WORLD = {
         ("lift", dict(N=5, nv=[2], k=2, windows="chunks", forms=["bare", "chunk"])),
         ("iv", dict(N=5, nv=[1], k=2, windows="menu")),
         ("iv", dict(N=4, nv=[2], k=2, windows="menu")),
+        ("ivx", dict(N=4, nv=[1], k=2, vwindows="menu")),
+        ("ivx", dict(N=4, nv=[2], k=1, vwindows="menu")),
         ("agg", dict(N=3, nv=[1, 2], k=1)),
         ("vcf", dict(nrec=2)),
     ],
@@ -79,6 +87,7 @@ WORLD = {
         ("iv", dict(N=6, nv=[1], k=2, windows="menu")),
         ("iv", dict(N=5, nv=[1, 2], k=2, windows="all", placements="all")),
         ("iv", dict(N=5, nv=[3], k=2, windows="chrom")),
+        ("ivx", dict(N=5, nv=[1, 2], k=2, vwindows="all")),
         ("agg", dict(N=4, nv=[1, 2], k=1)),
         ("vcf", dict(nrec=3)),
     ],
@@ -155,6 +164,8 @@ def run_shard(shard):
         run_lift(res, p, i, n)
     elif leg == "iv":
         I.run_iv(res, p, i, n)
+    elif leg == "ivx":
+        I.run_ivx(res, p, i, n)
     elif leg == "agg":
         I.run_agg(res, p, i, n)
     elif leg == "vcf":
